@@ -167,6 +167,10 @@ var qTemplates = []qTemplate{
 		for i := 0; i < n; i++ {
 			s += fmt.Sprintf(` a%d=%s`, i, []string{`"ls"`, `"-l"`, `2F746D702F782079`, `"--color=auto"`, `"x"`}[(int(v>>12)+i)%5])
 		}
+		if v&(1<<22) != 0 && v&(1<<23) != 0 {
+			// one argument more than argc announces (index argc, or further out)
+			s += fmt.Sprintf(` a%d="extra"`, argc+int(v>>24)%2*3)
+		}
 		return s
 	}},
 	// 4 SOCKADDR
